@@ -258,10 +258,84 @@ fn emit(cs: &'static Cs, id: u64) {
     }
 }
 
+/// Downcasting through a reload wrapper is documented as unsupported (it answers `None`).  If a
+/// build does hand out a reference into the reloadable value, that reference is an ordinary
+/// shared reference obtained through safe code: it must not change its value, let alone dangle,
+/// when the handle reloads.  (Under Miri / the sanitizers the stale use is reported by the tool.)
+fn downcast_probe(out: &mut Out) {
+    use tracing_subscriber::filter::Targets;
+    // (a) a Copy value
+    {
+        let (l, h) = reload::Subscriber::new(LevelFilter::INFO);
+        let d = Dispatch::new(Registry::default().with(l));
+        out.count("downcast_probes_through_a_reload_wrapper", 1);
+        if let Some(r) = d.downcast_ref::<LevelFilter>() {
+            out.count("downcast_through_reload_answered_some", 1);
+            let before = unsafe { std::ptr::read_volatile(r) };
+            let _ = h.reload(LevelFilter::TRACE);
+            let after = unsafe { std::ptr::read_volatile(r) };
+            if before != after {
+                out.violation(
+                    "a shared reference handed out by downcast_ref through a reload wrapper changed its value when the handle reloaded (it points into the reloadable slot without holding its lock)",
+                    json!({"type": "LevelFilter", "before": format!("{before:?}"), "after": format!("{after:?}")}),
+                );
+            }
+        }
+    }
+    // (b) a value that owns heap memory: the old one is freed by the reload
+    {
+        let t0 = Targets::new().with_target("a_rather_long_target_name::with::segments", LevelFilter::DEBUG).with_target("b", LevelFilter::WARN);
+        let (l, h) = reload::Subscriber::new(t0.clone());
+        let d = Dispatch::new(Registry::default().with(l));
+        out.count("downcast_probes_through_a_reload_wrapper", 1);
+        if let Some(r) = d.downcast_ref::<Targets>() {
+            out.count("downcast_through_reload_answered_some", 1);
+            let before = format!("{r}");
+            let _ = h.reload(Targets::new().with_target("zzz", LevelFilter::ERROR));
+            let after = format!("{r}");
+            if before != after {
+                out.violation(
+                    "a shared reference handed out by downcast_ref through a reload wrapper changed its value when the handle reloaded (it points into the reloadable slot without holding its lock)",
+                    json!({"type": "Targets", "before": before, "after": after}),
+                );
+            }
+        }
+        // the boxed forms used by the histories
+        let (l, h) = reload::Subscriber::new(Box::new(t0) as BoxLayer);
+        let d = Dispatch::new(Registry::default().with(l));
+        out.count("downcast_probes_through_a_reload_wrapper", 1);
+        if let Some(r) = d.downcast_ref::<Targets>() {
+            out.count("downcast_through_reload_answered_some", 1);
+            let before = format!("{r}");
+            let _ = h.reload(Box::new(Targets::new().with_target("zzz", LevelFilter::ERROR)) as BoxLayer);
+            let after = format!("{r}");
+            if before != after {
+                out.violation(
+                    "a shared reference handed out by downcast_ref through a reload wrapper changed its value when the handle reloaded (it points into the reloadable slot without holding its lock)",
+                    json!({"type": "Box<dyn Subscribe> holding Targets", "before": before, "after": after}),
+                );
+            }
+        }
+        if let Some(r) = d.downcast_ref::<BoxLayer>() {
+            out.count("downcast_through_reload_answered_some", 1);
+            let p0 = &**r as *const dyn Subscribe<Registry> as *const u8 as usize;
+            let _ = h.reload(Box::new(LevelFilter::OFF) as BoxLayer);
+            let p1 = &**r as *const dyn Subscribe<Registry> as *const u8 as usize;
+            if p0 != p1 {
+                out.violation(
+                    "a shared reference handed out by downcast_ref through a reload wrapper changed its value when the handle reloaded (it points into the reloadable slot without holding its lock)",
+                    json!({"type": "Box<dyn Subscribe>", "before": p0, "after": p1}),
+                );
+            }
+        }
+    }
+}
+
 fn child_hist(args: &Args) {
     let nh = args.get_u64("hist", 120);
     let only = args.get("only").and_then(|s| s.parse::<u64>().ok());
     let mut out = Out::new();
+    downcast_probe(&mut out);
     let fresh = Fresh::new();
     let mut used: Vec<&'static Cs> = vec![];
     let mut opid = 1u64;
